@@ -1,5 +1,6 @@
 from __future__ import annotations
 
+import math
 from typing import Any, ClassVar, overload
 
 from attr import define
@@ -45,6 +46,9 @@ class ConstProperty(PropertyProtocol):
             python_name: The name used to represent this variable/property in generated Python code
             description: The description of this property, used for docstrings
         """
+        if isinstance(const, float) and not math.isfinite(const):
+            # str() of these is a bare name (inf, nan), not a literal
+            return PropertyError(detail=f"Invalid const value: {const}")
         value = cls._convert_value(const)
 
         prop = cls(
